@@ -14,6 +14,15 @@ COMPONENTS_BASE = {
              "locks: aslsim.loop.SimLock (plain mutex driven by the simulator)"],
     "workload": ["streams, callables, context managers, getters: generated per run from the scenario stream"],
 }
+COMPONENTS_AIO = dict(
+    COMPONENTS_BASE,
+    real=COMPONENTS_BASE["real"] + [
+        "on backend B runs (20-25% of the runs, probe backend_asyncio): asyncio.Task / Future / call_at machinery, "
+        "asyncio.Lock and Task.cancel()/CancelledError delivery of CPython 3.12"],
+    stub=COMPONENTS_BASE["stub"] + [
+        "backend B: aslsim.aioloop.DetLoop, an asyncio.BaseEventLoop subclass with a virtual clock; suspension lengths "
+        "are drawn from the schedule stream, the ready queue stays FIFO"],
+)
 
 
 def run_sim(sim):
@@ -35,7 +44,36 @@ def set_interrupts(sim, den):
     sim.interrupt_den = den if FORCE_INTERRUPT_DEN[0] is None else FORCE_INTERRUPT_DEN[0]
 
 
-def new_sim(st, interrupts=True, max_steps=20000):
+# C17 (tokens, tripwires) must never run on the asyncio backend
+FORCE_BACKEND = [__import__("os").environ.get("VERIF_BACKEND") or None]  # VERIF_BACKEND=aio|sim forces one backend
+
+
+def pick_backend(ch, num=1, den=5):
+    """Draws whether this run uses backend B (deterministic asyncio); the draw always happens"""
+    aio = ch.chance(num, den)
+    if FORCE_BACKEND[0] is not None:
+        return FORCE_BACKEND[0]
+    return "aio" if aio else "sim"
+
+
+def make_lock(sim, policy=0, acquire_suspends=False, release_suspends=False):
+    """A lock *type* for this backend: SimLock stub, or the real asyncio.Lock on backend B"""
+    if getattr(sim, "backend", None) == "asyncio":
+        from ..aioloop import make_aio_lock_type
+
+        return make_aio_lock_type(sim, policy, acquire_suspends, release_suspends)
+    from ..loop import make_lock_type
+
+    return make_lock_type(sim, policy, acquire_suspends, release_suspends)
+
+
+def new_sim(st, interrupts=True, max_steps=20000, backend="sim"):
+    if backend == "aio":
+        from ..aioloop import AioSim
+
+        sim = AioSim(st.schedule, max_steps=max_steps)
+        sim.faults = st.schedule
+        return sim
     sim = Sim(st.schedule, max_steps=max_steps)
     sim.faults = st.schedule  # interrupts are drawn from the schedule stream
     if interrupts:
@@ -44,6 +82,9 @@ def new_sim(st, interrupts=True, max_steps=20000):
 
 
 def finish_outcome(out, st, sim, ctx):
+    if getattr(sim, "backend", None) == "asyncio":
+        sim.close()
+        out.probes["backend_asyncio"] = 1
     out.lists = st.recorded()
     out.steps = sim.seq
     out.sim_time = sim.now
